@@ -47,6 +47,13 @@ for d in sorted(glob.glob(V + "/seeded/C*-*")):
     if sid == "C05-R5B":
         meta["history"] = ("missed by the quick tier when first tried (the linear scan was followed only up to entry 256) and caught "
                            "by the thorough tier in 1250 s; since round 6 the whole scan runs in the quick tier and catches it there")
+    if sid == "C01-R6B":
+        meta["history"] = ("MISSED by the C01 quick check as it stood (exit 0, 51 queries, 516 s): C01's instance list had no harness for "
+                           "polyseed_crypt, although the property covers encrypted seeds and every encoder/decoder harness starts from a canonical "
+                           "(Inv) seed. k8_crypt was added to C01's list because of it; run directly on the patched tree "
+                           "(VF_REPO=<worktree> ./vf run k8_crypt --replay) it fails 'K8 result is a canonical seed (Inv)' and 'K8 secret XOR first 19 "
+                           "mask bytes, top two bits of the 19th dropped' with a natively reproduced counterexample. The full C01 trial was not "
+                           "repeated with the completed list (end of the session).")
     if sid == "C20-R6C":
         meta["origin"] += "; written by the C03 agent as its second change (a static phrase buffer in polyseed_encode): sequential behaviour is unchanged, so it is kept and tried as a C20 change"
     json.dump(meta, open(d + "/meta.json", "w"), indent=1)
@@ -89,9 +96,11 @@ with open(V + "/seeded/README.md", "w") as f:
             "skeletons, C05 the search harness). C05-R5B -- the linear scan of the two unsorted lists unrolled four times and never\n"
             "looking at the last four entries -- was missed by the quick tier while that followed the linear scan only up to entry 256\n"
             "(caught by the thorough tier then; see round 6).\n"
-            "Round 6 (ids with R6; sixteen uninformed agents, two changes each, asked for breakage that needs something specific to\n"
+            "Round 6 (ids with R6; twenty uninformed agents -- one per property --, two changes each, asked for breakage that needs something specific to\n"
             "manifest: a rare value, a boundary length, one language, hidden state between calls, a fault at one exit, two cooperating\n"
-            "sites): all 32 caught by the quick check of their property as it stood, each with a natively reproduced counterexample\n"
+            "sites): 39 of 40 caught by the quick check of their property as it stood, each with a natively reproduced counterexample;\n"
+            "C01-R6B (CLEAR_MASK applied before the XOR in polyseed_crypt) passed the C01 check, whose instance list had no polyseed_crypt harness --\n"
+            "k8_crypt (which fails on it, reproduced natively) was added to C01 because of it\n"
             "(C20-R6C is the C03 agent's second change -- a static phrase buffer in polyseed_encode, a thread-safety defect -- and was run\n"
             "against C20). In the same round the whole linear scan of t2_search moved into the quick tier (the list kind became a\n"
             "compile-time constant of the instance instead of an assumption: 90 s instead of 21 min), so C05-R5B is now caught by the quick\n"
